@@ -4,8 +4,10 @@ Model driver for C09 (same op lines as harness/c09.cpp):
   rd  <comp> <fd|buf> <ibs> <path> <fixes> <streams>
   rtm <comp> <fd|buf> <ibs> <path> <fixes> <streams>
 
-<fixes>   = three 0/1 digits: bufMulti bzUnused bufTrunc (which repairs the tree under test has)
-<streams> = "-" or comma separated  csize:payloadlen[:t|:ts]   (t = truncated, ts = truncated with slack)
+<fixes>   = three or four 0/1 digits: bufMulti bzUnused bufTrunc [gzDirect] (which repairs the tree under test has)
+<streams> = "-" or comma separated  csize:payloadlen[:t|:ts|:d|:m]
+            (t = truncated, ts = truncated with slack, d = damaged: data error after payloadlen bytes,
+             m = no stream header: BZ_DATA_ERROR_MAGIC / "incorrect header check"; gzread: raw bytes / garbage)
             — the library oracle: what zlib / libbz2 see in the file (computed by the reference
             implementation at generation time).  <path> is ignored.
 Output:  <status> lens=<rle> total=<n> | offs=<rle> fsize=<n>        (rtm: without the part after "|")
@@ -39,6 +41,8 @@ def parseStream (w : String) : Option (Stream Unit) :=
     let p ← p.toNat?
     if t == "t" then pure { csize := c, payload := List.replicate p (), trunc := true }
     else if t == "ts" then pure { csize := c, payload := List.replicate p (), trunc := true, slack := true }
+    else if t == "d" then pure { csize := c, payload := List.replicate p (), bad := .data }
+    else if t == "m" then pure { csize := c, payload := List.replicate p (), bad := .magic }
     else none
   | _ => none
 
@@ -50,6 +54,10 @@ def parseFixes (w : String) : Option Fixes :=
   | [a, b, c] =>
     if [a, b, c].all (fun x => x == '0' || x == '1') then
       some { bufMulti := a == '1', bzUnused := b == '1', bufTrunc := c == '1' }
+    else none
+  | [a, b, c, d] =>
+    if [a, b, c, d].all (fun x => x == '0' || x == '1') then
+      some { bufMulti := a == '1', bzUnused := b == '1', bufTrunc := c == '1', gzDirect := d == '1' }
     else none
   | _ => none
 
